@@ -18,6 +18,11 @@ fn main() {
         std::process::exit(2);
     }
     let prop = args[1].clone();
+    if prop == "c04-survey" {
+        vm::quiet_panics();
+        props::c04::survey(args[2].parse().unwrap(), args.get(3).map(|s| s.parse().unwrap()).unwrap_or(1));
+        return;
+    }
     if prop == "c19-child" {
         props::c19::child(args[2].parse().unwrap());
         return;
@@ -88,6 +93,7 @@ fn main() {
             "C01" => props::c01::replay(&ctx, &v),
             "C02" => props::c02::replay(&ctx, &v),
             "C03" => props::c03::replay(&ctx, &v),
+            "C04" => props::c04::replay(&ctx, &v),
             "C05" => props::c05::replay(&ctx, &v),
             "C06" => props::c06::replay(&ctx, &v),
             "C07" => props::c07::replay(&ctx, &v),
@@ -113,6 +119,7 @@ fn main() {
             "C01" => props::c01::run(&ctx),
             "C02" => props::c02::run(&ctx),
             "C03" => props::c03::run(&ctx),
+            "C04" => props::c04::run(&ctx),
             "C05" => props::c05::run(&ctx),
             "C06" => props::c06::run(&ctx),
             "C07" => props::c07::run(&ctx),
